@@ -80,13 +80,13 @@ def run_pls(ck, rng, tier, which):
         ck.count("ny=%d" % ny)
         ck.count("xscaling %d" % xs)
         ck.count("nlv=rank" if nlv == rank else "nlv<rank")
-    rc, outs, err = vf.run_driver(exe, "cap 3000000\n" + "\n".join(lines) + "\n", timeout=1500)
-    if rc != 0 or len(outs) != len(meta):
-        ck.broken("driver drv_pls", "rc=%s cases=%d/%d %s" % (rc, len(outs), len(meta), err[-800:]))
-        return
+    outs = vf.run_driver_cases(ck, exe, lines, lambda k: ("PLS", {"X": np.array(meta[k][0]).tolist(), "Y": np.array(meta[k][1]).tolist(), "xscaling": meta[k][3], "yscaling": meta[k][4], "nlv": meta[k][5]}),
+                               header="cap 3000000\n", timeout=1500)
     checks = vf.Checks()
     cm, cv = vf.coq_mat, vf.coq_vec
     for i, (mt, o) in enumerate(zip(meta, outs)):
+        if o is None:
+            continue
         X, Y, Xnew, xs, ys, nlv, rank, noise = mt
         n, m = X.shape
         ny = Y.shape[1]
